@@ -33,8 +33,9 @@ def gen_universe(rng, fields_set_p=0.25):
             if rng.random() < 0.15:
                 f["skip_if"] = rng.choice(["none", "zero", "empty"])
             if rng.random() < 0.15:
+                # after-targets are earlier fields only: no cyclic ordering (which is refused with ValueError)
                 f["order"] = rng.choice([("order", -1), ("order", 1), ("order", 999)] +
-                                        [("after", n) for n in names if n != f["name"]][:2])
+                                        [("after", n) for n in names[:names.index(f["name"])]][:2])
         for k in range(rng.choice([0, 0, 1, 2])):
             mt = rng.choice([("int",), ("str",), ("union", [("int",), NONE]), ("coll", "list", ("int",))])
             res = {"int": ("int", 7), "str": ("str", "m"), "union": rng.choice([("int", 3), ("none",)]),
@@ -161,10 +162,56 @@ class ValueGen:
             alts = t[1]
             if depth <= 0 and NONE in alts:
                 return None
-            return self.value(rng.choice(alts), depth - 1 if depth <= 0 else depth)
+            alt = rng.choice(alts)
+            for _ in range(4):
+                v = self.value(alt, depth - 1 if depth <= 0 else depth)
+                # serialization uses the first alternative whose class matches: a value of the union is a value of that one
+                first = next((a for a in alts if self.class_matches(a, v)), alt)
+                if first is alt or tuple(first) == tuple(alt):
+                    return v
+                alt = first
+            return v
         if k == "obj":
             return self.obj(t[1], depth)
         raise AssertionError(t)
+
+    def class_matches(self, t, v):
+        """isinstance(v, expected_class(t)) as union serialization computes it"""
+        import collections.abc as abc
+        import enum
+        k = t[0]
+        if k == "con":
+            return self.class_matches(t[2], v)
+        if k == "any":
+            return True
+        if k == "none":
+            return v is None
+        if k == "bool":
+            return isinstance(v, bool)
+        if k == "int":
+            return isinstance(v, int)
+        if k == "float":
+            return isinstance(v, float)
+        if k == "str":
+            return isinstance(v, str)
+        if k == "lit":
+            return any(type(v) is type(x) or isinstance(v, type(x)) for x in t[1])
+        if k == "enum":
+            return isinstance(v, self.U.mod.__dict__[f"E{t[1]}"])
+        if k == "tuple":
+            return isinstance(v, tuple)
+        if k == "map":
+            return isinstance(v, abc.Mapping)
+        if k == "obj":
+            c = self.u["classes"][t[1]]
+            return isinstance(v, dict) if c["kind"] == "typeddict" else type(v).__name__ == f"C{t[1]}"
+        if k == "coll":
+            cls = {"list": list, "sequence": abc.Sequence, "collection": abc.Collection, "abstractset": abc.Set, "set": set,
+                   "frozenset": frozenset, "vartuple": tuple}[t[1]]
+            return isinstance(v, cls)
+        if k == "union":
+            return any(self.class_matches(a, v) for a in t[1])
+        return False
 
     def obj(self, cid, depth):
         rng = self.rng
@@ -231,10 +278,15 @@ def satisfies(t, v, u, mod=None):
             if c.get("unique"):
                 items = list(v)
                 if any(x == y for i, x in enumerate(items) for y in items[i + 1:]): return False
-        if isinstance(v, dict) or dataclasses.is_dataclass(v):
-            n = len(v) if isinstance(v, dict) else len(dataclasses.fields(v))
-            if c.get("min_props") is not None or c.get("max_props") is not None:
-                return False          # property counts depend on the omission rules: not generated
+        if c.get("min_props") is not None or c.get("max_props") is not None:
+            base = t[2]
+            while base[0] == "con":
+                base = base[2]
+            if base[0] == "map" and isinstance(v, dict):
+                if c.get("min_props") is not None and len(v) < c["min_props"]: return False
+                if c.get("max_props") is not None and len(v) > c["max_props"]: return False
+            elif isinstance(v, dict) or dataclasses.is_dataclass(v) or hasattr(v, "_fields"):
+                return False          # property counts of objects depend on the omission rules: not generated
         return satisfies(t[2], v, u)
     if k == "coll":
         return isinstance(v, (list, tuple, set, frozenset)) and all(satisfies(t[2], x, u) for x in v)
@@ -244,6 +296,11 @@ def satisfies(t, v, u, mod=None):
         return isinstance(v, dict) and all(satisfies(t[1], kk, u) and satisfies(t[2], x, u) for kk, x in v.items())
     if k == "union":
         return any(satisfies(a, v, u) for a in t[1])
+    if k == "lit":
+        return any(type(v) is type(x) and v == x for x in t[1])
+    if k == "enum":
+        import enum
+        return isinstance(v, enum.Enum)
     if k in ("int", "float"):
         return isinstance(v, (int, float)) and not isinstance(v, bool)
     if k == "str":
